@@ -66,3 +66,28 @@ package keeper
 //@   modifies oracleReqs, bal, supply
 //@   ensures removed_if_known: forall i:Bytes :: i != requestContextID ==> has(oracleReqs, i) == old(has(oracleReqs, i)) && get(oracleReqs, i) == old(get(oracleReqs, i))
 //@ end
+
+// ---------------------------------------------------------------------------------------------
+// Genesis export (C12, C18): the pending queue is walked once and every entry is filed under its height
+
+// number of entries among the first k keys of the walk that are due at height h (definitional axioms of that count)
+//@ define CNT(s, k, h) = uf("cnt_height", s, k, h)
+//@ axiom cnt0(s, h)
+//@   ensures CNT(s, 0, h) == 0
+//@ axiom cntS(s, k, h)
+//@   ensures k >= 0 ==> CNT(s, k + 1, h) == CNT(s, k, h) + ite(s[k].k0 == h, 1, 0)
+//@ axiom cntMono(s, j, k, h)
+//@   ensures 0 <= j && j <= k ==> CNT(s, j, h) <= CNT(s, k, h)
+// decimal formatting of a height is injective
+//@ define HKEY(h) = ufstr("sprintf_Int", "%d", h)
+//@ axiom hkeyInj(a, b)
+//@   ensures HKEY(a) == HKEY(b) ==> a == b
+
+//@ func Keeper.IterateRandomRequestQueue
+//@   inline
+//@   invariant #1 pos:    0 <= it_idx && it_idx <= it_n
+//@   invariant #1 frame:  rqueue == old(rqueue)
+//@   invariant #1 count:  forall h:Int :: ite(has(pendingRequests, HKEY(h)), len(get(pendingRequests, HKEY(h)).Requests), 0) == CNT(it_seq, it_idx, h)
+//@   invariant #1 listed: forall j:Int :: 0 <= j && j < it_idx ==> has(pendingRequests, HKEY(it_seq[j].k0))
+//@                           && get(pendingRequests, HKEY(it_seq[j].k0)).Requests[CNT(it_seq, j, it_seq[j].k0)] == get(rqueue, it_seq[j].k0, it_seq[j].k1)
+//@ end
